@@ -278,7 +278,7 @@ def main(pid, tier, seed, jobs=None):
     ev = dict(property_id=pid, tier=tier, seed=seed, level=level, coverage=coverage,
               assumptions=list(getattr(mod, "ASSUMPTIONS", [])) + list(_shims_used(results)),
               wall_s=round(time.time() - t0, 2), violations=len(violations))
-    evdir = os.path.join(ROOT, "evidence")
+    evdir = os.environ.get("VERIF_EVIDENCE_DIR") or os.path.join(ROOT, "evidence")
     if os.environ.get("VERIF_REPO"):  # mutation self-test on a scratch copy: do not overwrite the real evidence
         evdir = os.path.join(os.environ["VERIF_REPO"], ".verif-evidence")
     os.makedirs(evdir, exist_ok=True)
